@@ -77,8 +77,23 @@ def go_build(target, out, tags="verif", race=False):
     """build ./cmd/<target> of the harness module against /repo's current working tree"""
     os.makedirs(BIN, exist_ok=True)
     sync_gosum()
-    cmd = ["go", "build"] + (["-race"] if race else []) + ["-tags", tags, "-o", out, "./cmd/" + target]
+    cmd = ["go", "build"] + (["-race"] if race else []) + altmod() + ["-tags", tags, "-o", out, "./cmd/" + target]
     return run(cmd, cwd=HARNESS, env=goenv(), timeout=600)
+
+
+def altmod():
+    """VERIF_REPO=<dir> (scratch worktrees for seeded changes): build the harness against that tree through an
+    alternative go.mod; the registered checks never set it and build against /repo"""
+    if REPO == "/repo":
+        return []
+    alt = os.path.join(WORK, "go.alt.mod")
+    src = open(os.path.join(HARNESS, "go.mod")).read().replace("=> /repo", "=> " + REPO)
+    open(alt, "w").write(src)
+    try:
+        open(os.path.join(WORK, "go.alt.sum"), "w").write(open(os.path.join(REPO, "go.sum")).read())
+    except OSError:
+        pass
+    return ["-modfile=" + alt]
 
 
 def extract():
